@@ -188,7 +188,11 @@ mpz_inp_raw(mpz_ptr x, FILE *fp)
     if (out->writtenSize != 0)
     {
         if (fread(out->written, out->writtenSize, 1, fp) != 1)
+        {
+            /* the limbs were not read: don't leave x with the announced size */
+            SIZ(x) = 0;
             return 0;
+        }
 
         mpz_inp_raw_m(x, out);
     }
